@@ -1,0 +1,216 @@
+//go:build verif
+
+package breaker
+
+import (
+	"encoding/json"
+	"errors"
+	"fmt"
+	"testing"
+	"time"
+
+	"github.com/gotid/god/internal/verifdrv"
+	"github.com/gotid/god/lib/logx"
+	"github.com/gotid/god/lib/mathx"
+	"github.com/gotid/god/lib/timex"
+)
+
+// events: [0,name,id,kind,m] Begin of a Do* call (kind 0 Do, 1 DoWithAcceptable, 2 DoWithFallback,
+// 3 DoWithFallbackAcceptable; m = coin*2^53) | [1,id,outcome] its req returns (0 nil, 1 acceptable
+// error, 2 unacceptable error, 3 panic) | [2,name,id,m] Allow | [3,id] promise.Accept |
+// [4,id] promise.Reject | [5,dt] advance the virtual clock.
+type verifCase struct {
+	Events [][]int64 `json:"events"`
+}
+
+type verifSource struct{ next int64 }
+
+func (s *verifSource) Int63() int64    { return s.next << 10 }
+func (s *verifSource) Seed(seed int64) {}
+
+var (
+	errVerifAcceptable   = errors.New("verif acceptable")
+	errVerifUnacceptable = errors.New("verif unacceptable")
+	errVerifFallback     = errors.New("verif fallback result")
+)
+
+type verifCall struct {
+	name     int64
+	started  chan struct{}
+	finish   chan int64
+	done     chan struct{}
+	ranReq   bool
+	ended    bool
+	fbArg    error
+	fbRan    bool
+	ret      error
+	panicked any
+}
+
+// TestVerifDriver drives named breakers (registry) with interleaved Begin/End events, a scripted
+// coin and the virtual clock.  Per event it reports [code, accepts, total]: code 0 none, 1 admitted,
+// 2 rejected with ErrServiceUnavailable (req not run), 3 rejected, fallback(ErrServiceUnavailable)
+// ran and its result was returned (req not run), 5 Allow rejected, 10+o req ran and its outcome o
+// came back unchanged (error identity / re-panicked value), 99 anything else; accepts/total are
+// history() of the event's breaker after the event (-1 for clock advances).
+func TestVerifDriver(t *testing.T) {
+	logx.Disable()
+	verifdrv.Run(t, func(raw json.RawMessage) any {
+		var c verifCase
+		if err := json.Unmarshal(raw, &c); err != nil {
+			return map[string]any{"error": err.Error()}
+		}
+		timex.VerifSetNow(time.Hour)
+		defer timex.VerifClockOff()
+		lock.Lock()
+		breakers = make(map[string]Breaker)
+		lock.Unlock()
+		srcs := map[int64]*verifSource{}
+		get := func(name int64) (Breaker, *googleBreaker, *verifSource) {
+			b := Get(fmt.Sprintf("verif-%d", name))
+			gb := b.(*circuitBreaker).throttle.(loggedThrottle).internalThrottle.(*googleBreaker)
+			src, ok := srcs[name]
+			if !ok {
+				src = &verifSource{}
+				srcs[name] = src
+				gb.proba = mathx.VerifNewProba(src)
+			}
+			return b, gb, src
+		}
+		calls := map[int64]*verifCall{}
+		promises := map[int64]Promise{}
+		pname := map[int64]int64{}
+		rows := make([][]int64, 0, len(c.Events))
+		executed := make([][]int64, 0, len(c.Events))
+		for _, ev := range c.Events {
+			code, acc, tot := int64(0), int64(-1), int64(-1)
+			var gb *googleBreaker
+			switch ev[0] {
+			case 0:
+				name, id, kind := ev[1], ev[2], ev[3]
+				b, g, src := get(name)
+				gb = g
+				src.next = ev[4]
+				call := &verifCall{name: name, started: make(chan struct{}), finish: make(chan int64), done: make(chan struct{})}
+				calls[id] = call
+				req := func() error {
+					call.ranReq = true
+					close(call.started)
+					switch <-call.finish {
+					case 1:
+						return errVerifAcceptable
+					case 2:
+						return errVerifUnacceptable
+					case 3:
+						panic("verif panic")
+					}
+					return nil
+				}
+				fallback := func(err error) error {
+					call.fbRan = true
+					call.fbArg = err
+					return errVerifFallback
+				}
+				acceptable := func(err error) bool { return err == nil || err == errVerifAcceptable }
+				go func() {
+					defer close(call.done)
+					defer func() { call.panicked = recover() }()
+					switch kind {
+					case 0:
+						call.ret = b.Do(req)
+					case 1:
+						call.ret = b.DoWithAcceptable(req, acceptable)
+					case 2:
+						call.ret = b.DoWithFallback(req, fallback)
+					case 3:
+						call.ret = b.DoWithFallbackAcceptable(req, fallback, acceptable)
+					}
+				}()
+				select {
+				case <-call.started:
+					code = 1
+				case <-call.done:
+					switch {
+					case call.ranReq || call.panicked != nil:
+						code = 99
+					case kind <= 1 && !call.fbRan && call.ret == ErrServiceUnavailable:
+						code = 2
+					case kind >= 2 && call.fbRan && call.fbArg == ErrServiceUnavailable && call.ret == errVerifFallback:
+						code = 3
+					default:
+						code = 99
+					}
+				}
+			case 1:
+				call := calls[ev[1]]
+				if call == nil || !call.ranReq || call.ended {
+					continue // End of a call that is not running: skipped, not listed in "events"
+				}
+				call.ended = true
+				_, gb, _ = get(call.name)
+				call.finish <- ev[2]
+				<-call.done
+				code = 99
+				switch ev[2] {
+				case 0:
+					if call.ret == nil && call.panicked == nil && !call.fbRan {
+						code = 10
+					}
+				case 1:
+					if call.ret == errVerifAcceptable && call.panicked == nil && !call.fbRan {
+						code = 11
+					}
+				case 2:
+					if call.ret == errVerifUnacceptable && call.panicked == nil && !call.fbRan {
+						code = 12
+					}
+				case 3:
+					if call.panicked == "verif panic" && !call.fbRan {
+						code = 13
+					}
+				}
+			case 2:
+				b, g, src := get(ev[1])
+				gb = g
+				src.next = ev[3]
+				p, err := b.Allow()
+				if err == nil {
+					promises[ev[2]] = p
+					pname[ev[2]] = ev[1]
+					code = 1
+				} else if err == ErrServiceUnavailable {
+					code = 5
+				} else {
+					code = 99
+				}
+			case 3:
+				if promises[ev[1]] == nil {
+					continue
+				}
+				_, gb, _ = get(pname[ev[1]])
+				promises[ev[1]].Accept()
+			case 4:
+				if promises[ev[1]] == nil {
+					continue
+				}
+				_, gb, _ = get(pname[ev[1]])
+				promises[ev[1]].Reject("verif")
+			case 5:
+				timex.VerifAdvance(time.Duration(ev[1]))
+			}
+			if gb != nil {
+				acc, tot = gb.history()
+			}
+			rows = append(rows, []int64{code, acc, tot})
+			executed = append(executed, ev)
+		}
+		// let calls still in flight finish so that no goroutine outlives the case
+		for _, call := range calls {
+			if call.ranReq && !call.ended {
+				call.finish <- 0
+			}
+			<-call.done
+		}
+		return map[string]any{"rows": rows, "events": executed}
+	})
+}
